@@ -285,7 +285,7 @@ pub fn run(args: &Args, rep: &mut Report) {
             }
         }
     }
-    let n = if reduced { args.cases(16, 160) } else { args.cases(600_000, 12_000_000) };
+    let n = if reduced { args.cases(60, 600) } else { args.cases(600_000, 12_000_000) };
     for k in 0..n {
         let mut r = Rng::new(args.seed, args.worker, k);
         let base = *r.pick(&[2000, 2024, 1900, 9999, 1, -1, 0, -400, 2100]);
